@@ -10,7 +10,7 @@
 (*    every memo entry).                                                   *)
 (* Record kinds: reset | op | opaque | persist | query | panic.            *)
 (***************************************************************************)
-EXTENDS RobddOps, AdfSem, Json, IOUtils
+EXTENDS AdfRobddOps, AdfSem, Json, IOUtils
 
 Rec == ndJsonDeserialize(IOEnv.TRACE)
 
@@ -163,6 +163,29 @@ CheckHist(r) ==
        /\ Report(p.copy_ac = p.orig_ac, r.id, "C14", <<"roots", p.how>>)
        /\ (r.copy_final = r.orig_final \/ PrintT(<<"DRIFT", l, r.id, "copy-final-table">>))
 
+\* ---------------------------------------------------------------- model-level conformance of call histories (drift only)
+\* the store-level transcriptions of grounded / complete / stable (AdfRobddOps) and the extra formulas follow the recorded
+\* history from the real pre-state and must predict every raw answer (handles and order) and the final node table
+Followable == {"grounded", "complete", "stable", "bddop"}
+
+RECURSIVE ExtraOps(_, _, _, _)
+ExtraOps(St, ops, i, nv) ==
+  IF i > Len(ops) THEN St
+  ELSE LET o == ops[i]  n == Len(St.nodes)  a == o[2] % n  b == o[3] % n  k == o[1] % 4 IN
+       ExtraOps(CASE k = 0 -> And(St, a, b).S [] k = 1 -> Or(St, a, b).S [] k = 2 -> Xor(St, a, b).S
+                  [] OTHER -> Restrict(St, a, o[4] % nv, o[5]).S, ops, i + 1, nv)
+
+RECURSIVE RunCalls(_, _, _, _, _)
+RunCalls(St, ac, calls, i, ok) ==
+  IF i > Len(calls) \/ ~ok THEN [S |-> St, ok |-> ok, at |-> i]
+  ELSE LET c == calls[i] IN
+       IF c.c \notin Followable \/ c.a_st # "ok" THEN [S |-> St, ok |-> ok, at |-> 0]     \* cannot follow further (not drift)
+       ELSE IF c.c = "bddop" THEN RunCalls(ExtraOps(St, c.ops, 1, Len(ac)), ac, calls, i + 1, ok)
+       ELSE LET x == CASE c.c = "grounded" -> LET g == GroundedInternalR(St, ac) IN R(g.S, <<g.r>>)
+                       [] c.c = "complete" -> CompleteR(St, ac)
+                       [] c.c = "stable"   -> StableR(St, ac)
+            IN RunCalls(x.S, ac, calls, i + 1, x.r = c.a)
+
 \* ---------------------------------------------------------------- the trace machine
 Drift(id, what) == PrintT(<<"DRIFT", l, id, what>>)
 
@@ -202,6 +225,8 @@ Next ==
             /\ prev' = r.nodes
        [] r.kind = "opaque" ->
             LET D == Dtab(r.nodes, r.nv) IN
+            \* after a fully followed history the model's node table IS the real one
+            /\ ((~synced \/ r.call # "history" \/ S.nodes = r.nodes) \/ PrintT(<<"DRIFT", l, r.id, "final-table-after-history">>)) \in BOOLEAN
             /\ Report(IsPrefix(prev, r.nodes), r.id, "C07", "prefix") \in BOOLEAN
             /\ AuditTables(r, D) \in BOOLEAN
             /\ Resync(r, D) /\ prev' = r.nodes
@@ -212,7 +237,13 @@ Next ==
             /\ Resync(r, D) /\ prev' = r.nodes
        [] r.kind = "hist" ->
             /\ CheckHist(r) \in BOOLEAN
-            /\ UNCHANGED <<S, prev, synced>>
+            /\ IF synced /\ r.backend = "native" /\ r.persist.how = "none"
+               THEN LET m == RunCalls(S, r.init_ac, r.calls, 1, TRUE) IN
+                    /\ (m.ok \/ PrintT(<<"DRIFT", l, r.id, <<"history-call", m.at - 1>> >>)) \in BOOLEAN
+                    /\ PrintT(<<"FOLLOWED", l, r.id, IF m.at = 0 THEN "partly" ELSE "fully">>)
+                    /\ S' = m.S /\ synced' = (m.ok /\ m.at # 0)
+               ELSE S' = S /\ synced' = FALSE
+            /\ UNCHANGED prev
        [] r.kind = "query" ->
             /\ CheckQuery(r) \in BOOLEAN
             /\ UNCHANGED <<S, prev, synced>>
